@@ -11,6 +11,8 @@ import (
 	"time"
 )
 
+var dumpSeq int
+
 type SatResult int
 
 const (
@@ -29,6 +31,8 @@ type Solver struct {
 	in     io.WriteCloser
 	out    *bufio.Reader
 	names  map[*Term]string
+	defs   map[string]string // definition body -> name (structural sharing at the SMT level)
+	asserted map[string]bool // names (or literals) asserted in the current path scope
 	vars   map[string]int
 	order  []string // declared variables in order
 	n      int
@@ -44,7 +48,7 @@ type Solver struct {
 func solverArgs(kind string) (string, []string) {
 	switch kind {
 	case "z3":
-		return "z3", []string{"-in", "-t:60000"}
+		return "z3", []string{"-in", "-t:30000"}
 	case "z3-new":
 		return "z3-new", []string{"-in", "-t:60000"}
 	case "cvc5":
@@ -71,6 +75,9 @@ func NewSolver(kind string) (*Solver, error) {
 		return nil, err
 	}
 	s := &Solver{kind: kind, cmd: cmd, in: in, out: bufio.NewReaderSize(outp, 1<<16)}
+	if lf := os.Getenv("GOSYM_LOG"); lf != "" {
+		s.logf, _ = os.Create(fmt.Sprintf("%s.%d", lf, cmd.Process.Pid))
+	}
 	s.send("(set-option :produce-models true)")
 	if strings.HasPrefix(kind, "cvc5") {
 		s.send("(set-logic ALL)")
@@ -82,6 +89,8 @@ func NewSolver(kind string) (*Solver, error) {
 
 func (s *Solver) resetMaps() {
 	s.names = make(map[*Term]string)
+	s.defs = make(map[string]string)
+	s.asserted = make(map[string]bool)
 	s.vars = make(map[string]int)
 	s.order = s.order[:0]
 	s.script = s.script[:0]
@@ -153,10 +162,15 @@ func (s *Solver) ref(t *Term) string {
 	default:
 		body = "(" + opNames[t.Op] + " " + strings.Join(args, " ") + ")"
 	}
+	if n, ok := s.defs[body]; ok {
+		s.names[t] = n
+		return n
+	}
 	s.n++
 	name := "t" + strconv.Itoa(s.n)
 	s.sendScoped(fmt.Sprintf("(define-fun %s () %s %s)", name, sortStr(t.W), body))
 	s.names[t] = name
+	s.defs[body] = name
 	return name
 }
 
@@ -168,7 +182,25 @@ func (s *Solver) Assert(t *Term) {
 		return
 	}
 	r := s.ref(t)
+	if s.asserted[r] {
+		return
+	}
+	s.asserted[r] = true
 	s.sendScoped("(assert " + r + ")")
+}
+
+// Known reports whether t (or its negation) is literally one of the asserted path conjuncts.
+func (s *Solver) Known(t *Term) (val bool, known bool) {
+	if t.IsConst() {
+		return t.C == 1, true
+	}
+	if s.asserted[s.ref(t)] {
+		return true, true
+	}
+	if s.asserted[s.ref(Not(t))] {
+		return false, true
+	}
+	return false, false
 }
 
 func (s *Solver) readLine() (string, error) {
@@ -182,15 +214,9 @@ func (s *Solver) Check(extra *Term, wantModel bool) (SatResult, Model) {
 	if extra != nil && extra.IsFalse() {
 		return Unsat, nil
 	}
-	if s.nonlin && s.kind == "z3" {
-		return s.checkExternal("cvc5-int", extra, wantModel)
-	}
 	var r string
 	if extra != nil {
 		r = s.ref(extra) // definitions stay in the path scope
-	}
-	if s.nonlin && s.kind == "z3" {
-		return s.checkExternal("cvc5-int", extra, wantModel)
 	}
 	start := time.Now()
 	s.send("(push 1)")
@@ -234,6 +260,10 @@ func (s *Solver) Check(extra *Term, wantModel bool) (SatResult, Model) {
 	s.send("(pop 1)")
 	s.Queries++
 	s.SolveTime += time.Since(start)
+	if res == Unknown && s.nonlin && s.kind == "z3" {
+		// multiplication / division kernels: retry on the integer encoding back end
+		return s.checkExternal("cvc5-int", extra, wantModel)
+	}
 	if res == Unknown {
 		s.Unknowns++
 	}
@@ -281,43 +311,71 @@ func (s *Solver) getModel() Model {
 	return m
 }
 
-// parseModel reads "((|a| #x0f) (|b| true) ...)".
+// parseModel reads "((|a| #x0f) (b true) (c (_ bv5 8)) ...)"; symbols may or may not be quoted.
 func parseModel(txt string, m Model) {
 	i := 0
-	for i < len(txt) {
-		j := strings.IndexByte(txt[i:], '|')
-		if j < 0 {
-			break
+	n := len(txt)
+	skipWS := func() {
+		for i < n && (txt[i] == ' ' || txt[i] == '\n' || txt[i] == '\t' || txt[i] == '\r') {
+			i++
 		}
-		j += i
-		k := strings.IndexByte(txt[j+1:], '|')
-		if k < 0 {
-			break
+	}
+	readSym := func() string {
+		skipWS()
+		if i < n && txt[i] == '|' {
+			j := strings.IndexByte(txt[i+1:], '|')
+			if j < 0 {
+				i = n
+				return ""
+			}
+			sym := txt[i+1 : i+1+j]
+			i += j + 2
+			return sym
 		}
-		k += j + 1
-		name := txt[j+1 : k]
-		rest := strings.TrimLeft(txt[k+1:], " \n\t")
-		end := strings.IndexAny(rest, ") \n\t")
-		tok := rest
-		if end >= 0 {
-			tok = rest[:end]
+		st := i
+		for i < n && txt[i] != ' ' && txt[i] != ')' && txt[i] != '(' && txt[i] != '\n' {
+			i++
 		}
+		return txt[st:i]
+	}
+	skipWS()
+	if i < n && txt[i] == '(' {
+		i++
+	}
+	for {
+		skipWS()
+		if i >= n || txt[i] != '(' {
+			return
+		}
+		i++
+		name := readSym()
+		skipWS()
 		var v uint64
-		switch {
-		case tok == "true":
-			v = 1
-		case tok == "false":
-			v = 0
-		case strings.HasPrefix(tok, "#x"):
-			v, _ = strconv.ParseUint(tok[2:], 16, 64)
-		case strings.HasPrefix(tok, "#b"):
-			v, _ = strconv.ParseUint(tok[2:], 2, 64)
-		case strings.HasPrefix(rest, "(_ bv"):
-			f := strings.Fields(rest[5:])
-			v, _ = strconv.ParseUint(f[0], 10, 64)
+		if i < n && txt[i] == '(' { // (_ bvN w)
+			j := strings.IndexByte(txt[i:], ')')
+			f := strings.Fields(txt[i+1 : i+j])
+			if len(f) >= 2 && strings.HasPrefix(f[1], "bv") {
+				v, _ = strconv.ParseUint(f[1][2:], 10, 64)
+			}
+			i += j + 1
+		} else {
+			tok := readSym()
+			switch {
+			case tok == "true":
+				v = 1
+			case tok == "false":
+				v = 0
+			case strings.HasPrefix(tok, "#x"):
+				v, _ = strconv.ParseUint(tok[2:], 16, 64)
+			case strings.HasPrefix(tok, "#b"):
+				v, _ = strconv.ParseUint(tok[2:], 2, 64)
+			}
 		}
 		m[name] = v
-		i = k + 1 + (len(txt[k+1:]) - len(rest)) + len(tok)
+		skipWS()
+		if i < n && txt[i] == ')' {
+			i++
+		}
 	}
 }
 
@@ -342,6 +400,18 @@ func (s *Solver) checkExternal(kind string, extra *Term, wantModel bool) (SatRes
 		o.send("(assert " + r + ")")
 	}
 	o.send("(check-sat)")
+	if d := os.Getenv("GOSYM_DUMP"); d != "" {
+		dumpSeq++
+		var sb strings.Builder
+		for _, l := range s.script {
+			sb.WriteString(l + "\n")
+		}
+		if extra != nil {
+			sb.WriteString("(assert " + r + ")\n")
+		}
+		sb.WriteString("(check-sat)\n(get-model)\n")
+		os.WriteFile(fmt.Sprintf("%s/q-%d.smt2", d, dumpSeq), []byte(sb.String()), 0644)
+	}
 	res := Unknown
 	for {
 		l, err := o.readLine()
